@@ -22,7 +22,7 @@
 EXTENDS Naturals, Sequences, FiniteSets, TLC, Json
 CONSTANTS Depth, MaxE, MaxR
 
-\* a relation value: name id, version (0 none, 1, 2), qualifier (0/1), architectures (0 none, 1, 2),
+\* a relation value: name id, version (0 none, 1, 2, 3), qualifier (0/1), architectures (0 none, 1, 2),
 \* number of profile groups (0..3; group g is the fixed group #g of 1, 2 resp. 3 terms)
 \* o = how the value came into the field ("parsed" | "ctor" | "builder"): not part of the meaning, but part of the
 \* STATE, so that histories continuing from an operand of each origin are all explored
@@ -64,7 +64,7 @@ vars == <<field, base, hist>>
 View == <<field, base>>
 
 Origins == {"parsed", "ctor", "builder"}      \* "padded": parsed from text with blanks around it
-Operands == { Plain(4), R(5, 1, 0, 0, 0), R(4, 2, 1, 1, 1) }
+Operands == { Plain(4), R(5, 1, 0, 0, 0), R(4, 2, 1, 1, 1), R(1, 3, 0, 0, 0) }   \* (the last: name 1 with version 3 = "1.0-0", EQUAL under Debian ordering to version 1 = "1.0" but another text)
 Op(op, i, j, x, g) == [op |-> op, i |-> i, j |-> j, x |-> x, g |-> g]      \* i entry idx, j relation idx (0-based), x operand(s), g origin
 
 InsertAt(s, i, x) == SubSeq(s, 1, i) \o <<x>> \o SubSeq(s, i + 1, Len(s))
